@@ -83,7 +83,13 @@ PROP = Prop(
              "services directly, through reference columns (services.host_*, comments.host_* / service_*) and through the by-group tables: "
              "every served id list must hold all entries the backend had attached the whole time and only entries it ever attached to that "
              "object (C14.Lists.list_ok; exact when the backend's comments never change), no id twice, entry texts as in the backend. Requests "
-             "which the generated lock coverage matrix reports as reading an unlocked table are sent by two further clients")],
+             "which the generated lock coverage matrix reports as reading an unlocked table are sent by two further clients. Every third "
+             "scenario (`waits`): three clients play 'send a command, wait for its effect': two identical WaitTrigger / WaitObject / "
+             "`WaitCondition: current_attempt >= threshold` requests for one host or service are sent at the same moment (their WaitCondition "
+             "goroutines refresh the object in step every 200 ms, concurrently with each other and with the update loop: several updaters of "
+             "one table), the check result that meets the condition arrives 200-406 ms later in the backend, the update menu reloads the "
+             "objects meanwhile (rebuild, restart) and never makes the backend fail; the answers go through the torn-row checks and "
+             "C14.Lists.wait_ok: an answer delivered more than 300 ms before the 1800 ms timeout shows the object with a version >= threshold")],
     trusted_base=[
         "Coq 8.16.1 kernel, vm_compute (access table theorems, the non-vacuity Example, evaluation of the cases); no native_compute",
         "axioms: none (Print Assumptions: closed under the global context, captured per run)",
@@ -104,6 +110,8 @@ PROP = Prop(
         "backends, cluster mode, config reload (C20), prometheus, logging",
     ],
     assumptions=[
+        "waits oracle: only recorded when the update loop did not make the backend fail during the wait (lmd ends a wait with the update's "
+        "error then); the backends have no last_update column (rows with unchanged last_check get numbers-only updates)",
         "lists oracle: the lower end of the window is the start of the run (a cache may be arbitrarily stale): 'must' = attached during the "
         "whole run, 'may' = ever attached; only with unchanging comments / downtimes the served list is pinned to one backend state",
         "threads follow the static discipline [safe] (proved for the reader / delta / comment diff / rebuild roles as programs; whether the Go "
